@@ -166,13 +166,18 @@ def cross_process_wakeups(tier, seed, report, stats, samples, seen):
     """for each class of identifiers: process A is held inside its section on an identifier (its moves are slowed,
     in A only), process B asks for the same identifier and has to wait; when A leaves, B must be woken and finish.
     Only completion within a generous deadline is required, so timing cannot raise a false alarm."""
+    REF = ("PidRefsAlreadyExistsError", "HashStoreRefsAlreadyExists")
+    # (class, preparation, A, B, outcome pairs that some sequential order of A and B produces)
     scenarios = [
-        ("reference-pid", [], lambda st, px, cx, cy: st.tag_object("p", cx), lambda st, px, cx, cy: st.tag_object("p", cy)),
-        ("cid", [], lambda st, px, cx, cy: st.tag_object("p1", cx), lambda st, px, cx, cy: st.tag_object("p2", cx)),
-        ("object-pid", [("store", "p")], lambda st, px, cx, cy: st.delete_object("p"), lambda st, px, cx, cy: st.delete_object("p")),
-        ("document", [], lambda st, px, cx, cy: st.store_metadata("p", px), lambda st, px, cx, cy: st.store_metadata("p", px)),
+        ("reference-pid", [], lambda st, px, cx, cy: st.tag_object("p", cx), lambda st, px, cx, cy: st.tag_object("p", cy),
+         [("ok", r_) for r_ in REF] + [(r_, "ok") for r_ in REF]),
+        ("cid", [], lambda st, px, cx, cy: st.tag_object("p1", cx), lambda st, px, cx, cy: st.tag_object("p2", cx), [("ok", "ok")]),
+        ("object-pid", [("store", "p")], lambda st, px, cx, cy: st.delete_object("p"), lambda st, px, cx, cy: st.delete_object("p"),
+         [("ok", "PidRefsDoesNotExist"), ("PidRefsDoesNotExist", "ok")]),
+        ("document", [], lambda st, px, cx, cy: st.store_metadata("p", px), lambda st, px, cx, cy: st.store_metadata("p", px),
+         [("ok", "ok")]),
     ]
-    for name, prep, op_a, op_b in scenarios:
+    for name, prep, op_a, op_b, allowed in scenarios:
         contents = oracle.Contents()
         real = impl.Real(contents, mp=True)
         try:
@@ -182,11 +187,15 @@ def cross_process_wakeups(tier, seed, report, stats, samples, seen):
             for what, p in prep:
                 real.store.store_object(p, px)
             children = []
+            pipes = {}
             for who, op, delay in (("A", op_a, 0.0), ("B", op_b, 0.2)):
                 time.sleep(delay)
+                rfd, wfd = os.pipe()
                 pid = os.fork()
                 if pid == 0:
+                    os.close(rfd)
                     code = 0
+                    outcome_ = "?"
                     try:
                         signal.alarm(90)
                         if who == "A":
@@ -194,16 +203,22 @@ def cross_process_wakeups(tier, seed, report, stats, samples, seen):
                             real_move = _sh.move
 
                             def slow_move(*a, **k):
-                                time.sleep(0.5)
+                                time.sleep(0.7)
                                 return real_move(*a, **k)
                             _sh.move = slow_move
                         try:
                             op(real.store, px, cx, cy)
-                        except Exception:  # noqa: any documented rejection is fine here, only completion is judged
-                            pass
+                            outcome_ = "ok"
+                        except Exception as e_:  # noqa
+                            outcome_ = type(e_).__name__
                     except BaseException:  # noqa
                         code = 3
-                    os._exit(code)
+                    try:
+                        os.write(wfd, outcome_.encode())
+                    finally:
+                        os._exit(code)
+                os.close(wfd)
+                pipes[who] = rfd
                 children.append((who, pid))
             deadline = time.time() + 40
             statuses = {}
@@ -219,6 +234,13 @@ def cross_process_wakeups(tier, seed, report, stats, samples, seen):
                         statuses[who] = -1
                         break
                     time.sleep(0.01)
+            outcomes = {}
+            for who, rfd in pipes.items():
+                try:
+                    outcomes[who] = os.read(rfd, 200).decode() or "?"
+                except OSError:
+                    outcomes[who] = "?"
+                os.close(rfd)
             stats["execs"] += 2
             stats["distinct"].add(("wakeup", name))
             bad = {w_: s_ for w_, s_ in statuses.items() if s_ != 0}
@@ -228,6 +250,9 @@ def cross_process_wakeups(tier, seed, report, stats, samples, seen):
                 problems["a process waiting for an identifier held by another process never returned"] = ("both return", bad)
             elif locks != "locks objPid=[] refPid=[] cid=[] doc=[]":
                 problems["identifier left locked after both processes returned"] = ("all free", locks)
+            elif (outcomes.get("A"), outcomes.get("B")) not in allowed:
+                # the waiter went in beside the holder (or was let through too early): no order of the two calls gives this
+                problems["outcomes of the two processes match no sequential order"] = (allowed, (outcomes.get("A"), outcomes.get("B")))
             if problems:
                 sig = "c16:cross-process-wakeup:%s:%s" % (name, ",".join(sorted(problems)))
                 if sig not in seen:
